@@ -1,0 +1,185 @@
+//go:build verif
+
+package aggregator
+
+import (
+	"crypto/sha256"
+	"encoding/hex"
+	"math/big"
+	"sort"
+)
+
+// Verification hook (build tag verif, add-only): canonical, sorted, deterministic dump of the
+// unexported in-memory AggregatorContext. Nothing here mutates the context.
+
+type VerifC14PP struct {
+	Price string
+	Power string
+}
+
+type VerifC14CalcRound struct {
+	DetID     string
+	Prices    []VerifC14PP
+	Confirmed string // "" = not confirmed
+	Timestamp string
+}
+
+type VerifC14CalcSource struct {
+	SourceID uint64
+	Rounds   []VerifC14CalcRound
+	Cap      int
+	Count    int
+}
+
+type VerifC14Slot struct {
+	SourceID  uint64
+	Price     string // "nil" when unset
+	DetID     string
+	Timestamp string
+	Decimal   int32
+}
+
+type VerifC14Report struct {
+	Validator string
+	Power     string
+	Price     string // "nil" when unset
+	Slots     []VerifC14Slot
+}
+
+type VerifC14KV struct {
+	K string
+	V []string
+}
+
+type VerifC14Worker struct {
+	FeederID uint64
+	Sealed   bool
+	Price    string
+	Decimal  int32
+	// filter (nil after seal)
+	HasFilter bool
+	Nonces    []VerifC14KV // validator -> nonces (sorted)
+	Seen      []VerifC14KV // validator+sourceID -> detIDs (insertion order)
+	// calculator
+	CalcValLen int
+	CalcTotal  string
+	Calc       []VerifC14CalcSource
+	// aggregator
+	HasAgg      bool
+	FinalPrice  string
+	ReportPower string
+	TotalPower  string
+	Reports     []VerifC14Report
+	DsPrices    []VerifC14KV
+}
+
+type VerifC14Round struct {
+	FeederID    uint64
+	BasedBlock  uint64
+	NextRoundID uint64
+	Status      int32
+}
+
+type VerifC14Agc struct {
+	Nil        bool
+	ParamsHash string
+	Validators []VerifC14PP // Price field = address, Power = power
+	TotalPower string
+	Rounds     []VerifC14Round
+	Workers    []VerifC14Worker
+}
+
+func verifC14Big(b *big.Int) string {
+	if b == nil {
+		return "nil"
+	}
+	return b.String()
+}
+
+func (agc *AggregatorContext) VerifC14Dump() VerifC14Agc {
+	if agc == nil {
+		return VerifC14Agc{Nil: true}
+	}
+	d := VerifC14Agc{TotalPower: verifC14Big(agc.totalPower)}
+	if agc.params != nil {
+		bz, err := agc.params.Marshal()
+		if err == nil {
+			h := sha256.Sum256(bz)
+			d.ParamsHash = hex.EncodeToString(h[:8])
+		}
+	} else {
+		d.ParamsHash = "nil"
+	}
+	for a, p := range agc.validatorsPower {
+		d.Validators = append(d.Validators, VerifC14PP{Price: a, Power: verifC14Big(p)})
+	}
+	sort.Slice(d.Validators, func(i, j int) bool { return d.Validators[i].Price < d.Validators[j].Price })
+	for id, r := range agc.rounds {
+		d.Rounds = append(d.Rounds, VerifC14Round{FeederID: id, BasedBlock: r.basedBlock, NextRoundID: r.nextRoundID, Status: int32(r.status)})
+	}
+	sort.Slice(d.Rounds, func(i, j int) bool { return d.Rounds[i].FeederID < d.Rounds[j].FeederID })
+	for id, w := range agc.aggregators {
+		if w == nil {
+			continue
+		}
+		wd := VerifC14Worker{FeederID: id, Sealed: w.sealed, Price: w.price, Decimal: w.decimal}
+		if w.f != nil {
+			wd.HasFilter = true
+			for v, s := range w.f.validatorNonce {
+				kv := VerifC14KV{K: v}
+				for _, n := range s.VerifC14Items() {
+					kv.V = append(kv.V, big.NewInt(int64(n)).String())
+				}
+				sort.Strings(kv.V)
+				wd.Nonces = append(wd.Nonces, kv)
+			}
+			sort.Slice(wd.Nonces, func(i, j int) bool { return wd.Nonces[i].K < wd.Nonces[j].K })
+			for v, s := range w.f.validatorSource {
+				kv := VerifC14KV{K: v}
+				kv.V = append(kv.V, s.VerifC14Items()...) // insertion order
+				wd.Seen = append(wd.Seen, kv)
+			}
+			sort.Slice(wd.Seen, func(i, j int) bool { return wd.Seen[i].K < wd.Seen[j].K })
+		}
+		if w.c != nil {
+			wd.CalcValLen = w.c.validatorLength
+			wd.CalcTotal = verifC14Big(w.c.totalPower)
+			for sid, rl := range w.c.deterministicSource {
+				cs := VerifC14CalcSource{SourceID: sid, Cap: cap(rl.roundPricesList), Count: rl.roundPricesCount}
+				for _, r := range rl.roundPricesList {
+					cr := VerifC14CalcRound{DetID: r.detID, Timestamp: r.timestamp}
+					if r.price != nil {
+						cr.Confirmed = r.price.String()
+					}
+					for _, pp := range r.prices {
+						cr.Prices = append(cr.Prices, VerifC14PP{Price: verifC14Big(pp.price), Power: verifC14Big(pp.power)})
+					}
+					cs.Rounds = append(cs.Rounds, cr)
+				}
+				wd.Calc = append(wd.Calc, cs)
+			}
+			sort.Slice(wd.Calc, func(i, j int) bool { return wd.Calc[i].SourceID < wd.Calc[j].SourceID })
+		}
+		if w.a != nil {
+			wd.HasAgg = true
+			wd.FinalPrice = verifC14Big(w.a.finalPrice)
+			wd.ReportPower = verifC14Big(w.a.reportPower)
+			wd.TotalPower = verifC14Big(w.a.totalPower)
+			for _, r := range w.a.reports {
+				rd := VerifC14Report{Validator: r.validator, Power: verifC14Big(r.power), Price: verifC14Big(r.price)}
+				for sid, s := range r.prices {
+					rd.Slots = append(rd.Slots, VerifC14Slot{SourceID: sid, Price: verifC14Big(s.price), DetID: s.detRoundID, Timestamp: s.timestamp, Decimal: s.decimal})
+				}
+				sort.Slice(rd.Slots, func(i, j int) bool { return rd.Slots[i].SourceID < rd.Slots[j].SourceID })
+				wd.Reports = append(wd.Reports, rd)
+			}
+			for sid, id := range w.a.dsPrices {
+				wd.DsPrices = append(wd.DsPrices, VerifC14KV{K: big.NewInt(0).SetUint64(sid).String(), V: []string{id}})
+			}
+			sort.Slice(wd.DsPrices, func(i, j int) bool { return wd.DsPrices[i].K < wd.DsPrices[j].K })
+		}
+		d.Workers = append(d.Workers, wd)
+	}
+	sort.Slice(d.Workers, func(i, j int) bool { return d.Workers[i].FeederID < d.Workers[j].FeederID })
+	return d
+}
